@@ -106,6 +106,8 @@ type c08Run struct {
 	release chan struct{} // closed by the harness once the call has returned: wind everything down
 
 	upChunks, downChunks int
+	peerDriven           bool // the client reads the response body itself (auto-read): the peer paces
+	// the download and its "sent" events stand for the caller's "got" events
 	failFirst            int // number of initial attempts the peer makes fail
 	attemptsSeen         int32
 	startsAfterFire      int32
@@ -497,17 +499,23 @@ func (p *c08H1Peer) serve(c net.Conn) {
 		if _, err := io.WriteString(c, hdr); err != nil {
 			return
 		}
+		if r.peerDriven && r.hit("gotHeaders", "hdrSent", true) {
+			r.stall(nil)
+			return
+		}
 		buf := make([]byte, c08Chunk)
 		for j := 0; j < r.downChunks; j++ {
-			select {
-			case <-r.gate(&r.downGates, j):
-			case <-r.firedCh:
-				r.stall(nil)
-				return
-			case <-r.release:
-				return
-			case <-time.After(c08HardLimit):
-				return
+			if !r.peerDriven {
+				select {
+				case <-r.gate(&r.downGates, j):
+				case <-r.firedCh:
+					r.stall(nil)
+					return
+				case <-r.release:
+					return
+				case <-time.After(c08HardLimit):
+					return
+				}
 			}
 			if r.isFired() {
 				r.stall(nil)
@@ -517,6 +525,10 @@ func (p *c08H1Peer) serve(c net.Conn) {
 				buf[k] = byte('A' + j%26)
 			}
 			if _, err := c.Write(buf); err != nil {
+				return
+			}
+			if r.peerDriven && j < r.downChunks-1 && r.hit("gotBody", "sent#"+strconv.Itoa(j), true) {
+				r.stall(nil)
 				return
 			}
 		}
@@ -557,6 +569,8 @@ func c08DrainBody(br *bufio.Reader, chunked bool, clen int) bool {
 type c08H2Peer struct {
 	srv *httptest.Server
 	run atomic.Pointer[c08Run]
+	h3  bool // serving HTTP/3: the arrival of the request head is no model event (QUIC buffers the
+	// header write, the client is already past it), only an injection point
 }
 
 func newC08H2Peer() *c08H2Peer {
@@ -603,7 +617,11 @@ func (p *c08H2Peer) handle(w http.ResponseWriter, rq *http.Request) {
 		panic(http.ErrAbortHandler)
 	}
 	attempt := int(atomic.AddInt32(&r.attemptsSeen, 1)) - 1
-	if r.hit("wrote", "wroteHdr", true) {
+	hdrTok := "wrote"
+	if p.h3 {
+		hdrTok = "inflight"
+	}
+	if r.hit(hdrTok, "wroteHdr", true) {
 		stall()
 	}
 	if r.upChunks > 0 {
@@ -639,17 +657,22 @@ func (p *c08H2Peer) handle(w http.ResponseWriter, rq *http.Request) {
 	w.Header().Set("Content-Length", strconv.Itoa(r.downChunks*c08Chunk))
 	w.WriteHeader(200)
 	w.(http.Flusher).Flush()
+	if r.peerDriven && r.hit("gotHeaders", "hdrSent", true) {
+		stall()
+	}
 	buf := make([]byte, c08Chunk)
 	for j := 0; j < r.downChunks; j++ {
-		select {
-		case <-r.gate(&r.downGates, j):
-		case <-r.firedCh:
-			stall()
-		case <-rq.Context().Done():
-			atomic.StoreInt32(&r.rstSeen, 1)
-			panic(http.ErrAbortHandler)
-		case <-time.After(c08HardLimit):
-			return
+		if !r.peerDriven {
+			select {
+			case <-r.gate(&r.downGates, j):
+			case <-r.firedCh:
+				stall()
+			case <-rq.Context().Done():
+				atomic.StoreInt32(&r.rstSeen, 1)
+				panic(http.ErrAbortHandler)
+			case <-time.After(c08HardLimit):
+				return
+			}
 		}
 		if r.isFired() {
 			stall()
@@ -661,6 +684,9 @@ func (p *c08H2Peer) handle(w http.ResponseWriter, rq *http.Request) {
 			stall()
 		}
 		w.(http.Flusher).Flush()
+		if r.peerDriven && j < r.downChunks-1 && r.hit("gotBody", "sent#"+strconv.Itoa(j), true) {
+			stall()
+		}
 	}
 }
 
